@@ -60,10 +60,17 @@ def attr_census(facts):
     return hits
 
 
+NEUTRAL_ATTR = re.compile(r"^(inline|must_use|allow|warn|deny|expect|forbid|cold|doc|deprecated|rustfmt::|clippy::|track_caller$|automatically_derived$)")
+
+
 def _shape(n):
-    """A node without positions and documentation (what the compiler compiles, not where it stands)."""
+    """A node without positions, documentation and attributes that do not change what a program computes (`inline`, lints,
+    `must_use`, …): what the compiler compiles, not where it stands or how it is optimised."""
     if isinstance(n, dict):
-        return {k: _shape(v) for k, v in n.items() if k not in ("l", "end", "docs", "_file", "_module") and not k.startswith("_")}
+        out = {k: _shape(v) for k, v in n.items() if k not in ("l", "end", "docs", "_file", "_module", "attrs") and not k.startswith("_")}
+        if isinstance(n.get("attrs"), list):
+            out["attrs"] = [a for a in n["attrs"] if not (isinstance(a, str) and NEUTRAL_ATTR.match(a.strip()))]
+        return out
     if isinstance(n, list):
         return [_shape(x) for x in n]
     return n
@@ -80,6 +87,8 @@ def profile_program_diff(facts):
     for what, get in (("fn", lambda f_: {k: v.node for k, v in f_.fns.items() if not v.test}), ("const", lambda f_: f_.consts), ("static", lambda f_: f_.statics), ("enum", lambda f_: f_.enums), ("struct", lambda f_: f_.structs), ("type", lambda f_: f_.types)):
         a, b_ = get(on), get(off)
         for k in sorted(set(a) | set(b_)):
+            if what == "const" and k.split("::")[-1] == "_":
+                continue  # `const _: () = assert!(..)`: evaluated by the compiler, nothing of it exists at run time
             if k not in a or k not in b_:
                 out.append("%s %s exists only %s debug assertions" % (what, k, "with" if k in a else "without"))
             elif json.dumps(_shape(a[k]), sort_keys=True, default=str) != json.dumps(_shape(b_[k]), sort_keys=True, default=str):
@@ -94,7 +103,7 @@ def profile_program_diff(facts):
 def macro_census(facts):
     hits = []
     for fn in facts.nontest_fns():
-        for x in find_all(fn.body, lambda x: x.get("k") == "macro"):
+        for x in find_all(fn.body, lambda x: x.get("k") == "macro") + list(fn.node.get("_asserts") or []):
             if x["name"] in ("debug_assert", "debug_assert_eq", "debug_assert_ne"):
                 hits.append((fn.key, x["name"] + "!"))
             if x["name"] == "cfg" and PROFILE_CFG.search(x.get("raw", "")):
